@@ -4,7 +4,7 @@
 cd "$(dirname "$0")/.."
 out=out/seedrun_full.txt; : > $out
 declare -A extra=( [C01_2]="C07" [C02_1]="C03" [C03_2]="C02" [C04_2]="C14" [C05_2]="C13" [C07_1]="C01" [C10_2]="C11" [C13_1]="C02" [C13_2]="C02" [C13_3]="C02" [C17_1]="C05" [own_C01_dropped_conj_ps_matrix]="C07" )
-for d in seeded/*/; do
+for d in seeded/[Co]*/; do
   s=$(basename $d)
   case $s in own_*) p=$(echo $s | cut -d_ -f2);; *) p=${s%%_*};; esac
   echo "=== $s" >> $out
